@@ -19,11 +19,15 @@ exception semantics the effect does nothing (a `write` may write a prefix of its
 Python exception handlers run (`finally:` 497-501); a crash is "the process stops after some
 step", so the crash states are exactly the visited states `Res.steps` of a run.
 
-Not modelled (stated, not hidden): the parallel writer `_write_parallel` (591-650) and the
-concurrent shard drivers (858-895) — their effects are an interleaving of the same `tmpOnly`
-effects, over which `C08_crash`/`C08_exception` quantify, but the executable `tryBody` below is the
-serial writer; the resolution of a symlinked destination (453-456: the model's `dest` is the
-resolved path); failures an effect produces by itself (e.g. `os.replace` onto a directory) — they
+The parallel writer `_write_parallel` (591-653) is modelled by its own effects (`truncate`,
+`openW/seekW/writeW/closeW` on per-worker handles); its effect *order* is the thread schedule, so
+the executable `saveWriter` takes the writer's effect list as a parameter (the harness passes the
+observed order) and `C08_crash`/`C08_exception_multi` quantify over every such list. When one
+worker fails the other workers keep running until the pool is shut down; the model leaves the
+block at the failing effect — the later effects only touch the temporary file.
+Not modelled (stated, not hidden): the concurrent shard drivers (858-895); symlinks as file-system
+objects (the chain of the destination is resolved by `destinationOf`, 453-456, and the effects then
+work on resolved names; symlinked directory components are differential only); failures an effect produces by itself (e.g. `os.replace` onto a directory) — they
 are instances of "effect k fails", which the fault parameter `f` ranges over.
 
 Core Lean only (linked into the driver).
@@ -73,8 +77,9 @@ structure Tensor where
 
 /-- Run-time state: the file system, the open handle on the temporary file (inode, position),
 per-tensor `ExternalTensor._valid` and mmap (`raw`: the inode that is mapped, if any),
-memory copies taken by `_external_tensor_to_memory_tensor`, and a ghost flag recording that
-`os.replace` renamed the temporary file onto the destination. -/
+memory copies taken by `_external_tensor_to_memory_tensor`, a ghost flag recording that
+`os.replace` renamed the temporary file onto the destination, and the per-worker handles of the
+parallel writer. -/
 structure St where
   fs : FS
   fd : Option Nat
@@ -83,6 +88,8 @@ structure St where
   mapped : Nat → Option Nat
   mem : Nat → Option Bytes
   replaced : Bool
+  /-- handles of the parallel writer's workers (`_thread_file`, 621-631): inode and position -/
+  wfd : Nat → Option (Nat × Nat)
 
 /-- The effects (one per file-system call, tensor call-back or `ExternalTensor` state change). -/
 inductive Eff where
@@ -113,6 +120,16 @@ inductive Eff where
   /-- `tensor.numpy().copy()` of a small external tensor, 271 (via 1063-1065): `numpy()` maps the
   file if it is not mapped yet (`_core.py` 890-899, 817-831), the copy is kept in memory -/
   | loadSmall (i : Nat) (e : Ext)
+  /-- `data_file.truncate(total_size)` of the parallel writer, 608-609 -/
+  | truncate (n : Nat)
+  /-- worker `w` opens its own handle: `open(self._file_path, "r+b")` 625-627 -/
+  | openW (w : Nat)
+  /-- `file.seek(offset)` 391 on worker `w`'s handle -/
+  | seekW (w : Nat) (off : Nat)
+  /-- one `file.write(chunk)` on worker `w`'s handle -/
+  | writeW (w : Nat) (bs : Bytes)
+  /-- `data_file.close()` of worker `w`'s handle, 652-653 -/
+  | closeW (w : Nat)
   deriving DecidableEq, Repr
 
 /-- Python file semantics of `seek(pos); write(bs)` on content `buf`: a gap past the end reads
@@ -120,6 +137,9 @@ back as zeros; writing nothing changes nothing (no extension). -/
 def writeAt (buf : Bytes) (pos : Nat) (bs : Bytes) : Bytes :=
   if bs.isEmpty then buf
   else buf.take pos ++ List.replicate (pos - buf.length) 0 ++ bs ++ buf.drop (pos + bs.length)
+
+/-- `truncate(n)`: cut, or extend with zeros. -/
+def resize (buf : Bytes) (n : Nat) : Bytes := buf.take n ++ List.replicate (n - buf.length) 0
 
 def slice (buf : Bytes) (off len : Nat) : Bytes := (buf.drop off).take len
 
@@ -190,11 +210,32 @@ def apply (env : Env) (s : St) : Eff → St
             | some m => some m
             | none => s.fs.file (.user e.path))
          else s.mapped i) }
+  | .truncate n =>
+    match s.fd with
+    | some i => { s with fs := { s.fs with data := upd s.fs.data i (resize (s.fs.data i) n) } }
+    | none => s
+  | .openW w =>
+    match s.fs.file .tmpFile with
+    | some i => { s with wfd := upd s.wfd w (some (i, 0)) }
+    | none => s
+  | .seekW w off =>
+    match s.wfd w with
+    | some (i, _) => { s with wfd := upd s.wfd w (some (i, off)) }
+    | none => s
+  | .writeW w bs =>
+    match s.wfd w with
+    | some (i, p) =>
+      { s with
+        fs := { s.fs with data := upd s.fs.data i (writeAt (s.fs.data i) p bs) }
+        wfd := upd s.wfd w (some (i, p + bs.length)) }
+    | none => s
+  | .closeW w => { s with wfd := upd s.wfd w none }
 
 /-- What a *failing* effect leaves behind: a `write` may have written the first `p` bytes of its
 chunk; every other effect either happens or does not. -/
 def applyPartial (env : Env) (s : St) : Eff → Nat → St
   | .write bs, p => apply env s (.write (bs.take p))
+  | .writeW w bs, p => apply env s (.writeW w (bs.take p))
   | _, _ => s
 
 /-- One executed (or failed) effect and the state right after it. -/
@@ -289,6 +330,30 @@ def invalidated (cfg : Cfg) (s0 : St) : List Nat :=
   invalidatedFrom s0.fs cfg.env.dest 0 cfg.tensors
 
 def postEffs (cfg : Cfg) (s0 : St) : List Eff := (invalidated cfg s0).map .invalidate
+
+/-- The `try` block with an explicit list of writer effects instead of the serial writer's: used
+for the parallel writer `_write_parallel` 591-653, whose effect order is the thread schedule (the
+harness passes the order it observed; the theorems quantify over all such lists). -/
+def tryBodyWith (cfg : Cfg) (s0 : St) (writer : List Eff) : List Eff :=
+  writer ++ (overwritten cfg s0).map .release
+    ++ (if (s0.fs.file (.user cfg.env.dest)).isSome then [.copymode] else [])
+
+def saveWriter (cfg : Cfg) (writer : List Eff) (f : Nat → Option Nat) (n0 : Nat) (s0 : St) : Res :=
+  saveWith cfg.env (tryBodyWith cfg s0 writer) (postEffs cfg s0) f n0 s0
+
+/-- `destination_path` 453-456: `os.path.realpath(requested)` when the requested path is a symlink,
+else the requested path. Symlinks are a table `name -> target` (both root-relative and normalised:
+the path algebra itself is property C10's); `realpath` follows the chain (`fuel` bounds a cycle,
+which `realpath` leaves unresolved as well). -/
+def resolveLink (links : List (String × String)) : Nat → String → String
+  | 0, p => p
+  | fuel + 1, p =>
+    match links.lookup p with
+    | some t => resolveLink links fuel t
+    | none => p
+
+def destinationOf (links : List (String × String)) (requested : String) : String :=
+  resolveLink links (links.length + 1) requested
 
 /-- The serial single-file save. -/
 def save (cfg : Cfg) (f : Nat → Option Nat) (n0 : Nat) (s0 : St) : Res :=
